@@ -223,3 +223,167 @@ Example C04_nan_key_instances :
   is_ok (unser [] ex_pu 5 ex_env (SObject "o" false [("a", ex_prop SAny None false)])
            (VMap t_any_map false [(vstr "a", ex_nan_map)])) = true.
 Proof. vm_compute. repeat split; reflexivity. Qed.
+
+(* ====================================================================================================
+   Appended by work package pb1: the termination half for struct-mapped objects
+   (Proofs/XMonoT.v, Proofs/XTerm.v, Proofs/XTermRec.v).  This supersedes the remark above that the full
+   statement `x_struct_total` is not proved.
+
+   C04_struct_terminates / C04_struct_total   THE FULL STATEMENT, recursive schemas included:
+       xterminating words pu K e s = true -> forall f >= xfuel_bound K e s v,
+       xunser / xvalidate / xserialize / xcompat f e s v is neither Panic nor OutOfFuel,
+     xfuel_bound K e s v = K + 3 + (4 * N + 8) * (1 + vdepth v),  N = xnr_fuel e s = 2 + number of schema nodes.
+     xterminating = xwf e s  &&  at every node of s and of the tables of e (xall_env / xall_nodes, as xwf):
+       xnic N false && xnic N true   the non-consuming walk (reference -> target, scope -> root, single-property
+                                     object on a non-map input -> its property, one-of -> member) ends within N
+                                     steps: the analogue of no_inline_cycle, absence of D11;
+       at an object: distinct property names; every mapped field has a non-empty FieldByName index path (a field
+                                     is a proper part of the struct: always so for reflect.StructField.Index);
+                     xdflt_ok K      the values the ABSENT properties receive, built exactly as Unserialize builds
+                                     them on the empty input (property defaults, then for a struct-mapped object
+                                     sub-object default propagation run with fuel K), ARE built (not OutOfFuel:
+                                     absence of D52) and each is processed by its own property type within K
+                                     steps (the analogue of defaults_total, absence of D50).
+     The class is boolean; it excludes, for EVERY K, every schema that has an input on which Unserialize has no
+     sufficient fuel (C04_struct_terminating_excludes_divergent, by the theorem itself): the D52 witness
+     (C04_struct_terminating_excludes_d52) and the well-formed D11 / D50 witnesses of Proofs/C04Refuted.v, embedded
+     (C04_struct_terminating_excludes_d11_d50_embedded); it contains the harness descriptors and recursive
+     struct-mapped / map-based schemas (C04_struct_terminates_example).  It is slightly smaller than "no D11 /
+     D50 / D52": the walk counts one-of members for non-map inputs too (the member of a struct VALUE is reached
+     without consuming input in Validate / Serialize).
+   C04_struct_fuel_monotone       more fuel never changes a finished result: every fuel-indexed statement about
+                                  the x-model is fuel-independent (all schemas, all values).
+   C04_struct_terminates_partial / C04_struct_total_partial   the same on the purely syntactic class of
+                                  NON-RECURSIVE schemas (xterminating_nr K e s = xwf e s && xnonrec K e s: the
+                                  unfolding along references closes within the node count, distinct property
+                                  names, every declared default decodes to a value of depth <= K), where no run of
+                                  the model is part of the hypothesis; fuel bound
+                                    xfuel_bound_nr K e s v = 4 * N + max (vdepth v) (K + N) + 3. *)
+From Verif Require Import Schema.Total Proofs.XMonoT Proofs.XTerm.
+
+Theorem C04_struct_fuel_monotone :
+  forall (words : list (string * bool)) (pu : units -> string -> option fl)
+         (f f' : nat) (e : xenv) (s : xschema) (v : gval), (f <= f')%nat ->
+  (forall r, xunser words pu f e s v = r -> r <> OutOfFuel -> xunser words pu f' e s v = r) /\
+  (forall r, xvalidate words pu f e s v = r -> r <> OutOfFuel -> xvalidate words pu f' e s v = r) /\
+  (forall r, xserialize words pu f e s v = r -> r <> OutOfFuel -> xserialize words pu f' e s v = r) /\
+  (forall r, xcompat words pu f e s v = r -> r <> OutOfFuel -> xcompat words pu f' e s v = r).
+Proof. exact x_fuel_monotone. Qed.
+Print Assumptions C04_struct_fuel_monotone.
+
+Theorem C04_struct_terminates_partial :
+  forall (words : list (string * bool)) (pu : units -> string -> option fl)
+         (K : nat) (e : xenv) (s : xschema) (v : gval),
+  xterminating_nr K e s = true ->
+  forall f, (xfuel_bound_nr K e s v <= f)%nat ->
+    xunser words pu f e s v <> OutOfFuel /\ xvalidate words pu f e s v <> OutOfFuel /\
+    xserialize words pu f e s v <> OutOfFuel /\ xcompat words pu f e s v <> OutOfFuel.
+Proof. exact x_struct_terminates_nr. Qed.
+Print Assumptions C04_struct_terminates_partial.
+
+Theorem C04_struct_total_partial :
+  forall (words : list (string * bool)) (pu : units -> string -> option fl)
+         (K : nat) (e : xenv) (s : xschema) (v : gval),
+  xterminating_nr K e s = true ->
+  forall f, (xfuel_bound_nr K e s v <= f)%nat ->
+    ((forall w, xunser words pu f e s v <> Panic w) /\ xunser words pu f e s v <> OutOfFuel) /\
+    ((forall w, xvalidate words pu f e s v <> Panic w) /\ xvalidate words pu f e s v <> OutOfFuel) /\
+    ((forall w, xserialize words pu f e s v <> Panic w) /\ xserialize words pu f e s v <> OutOfFuel) /\
+    ((forall w, xcompat words pu f e s v <> Panic w) /\ xcompat words pu f e s v <> OutOfFuel).
+Proof. exact x_struct_total_nr. Qed.
+Print Assumptions C04_struct_total_partial.
+
+(* the hypotheses are met by the harness descriptors (with the explicit fuel bound the operations finish),
+   K = 0 rejects XNested (XInner.a has the default "1", a value of depth 1) *)
+Example C04_struct_terminates_partial_example :
+  xterminating_nr 1 (xs_env []) (xs_scope "XNested") = true /\
+  xterminating_nr 1 (xs_env []) (xs_scope "Choice") = true /\
+  xterminating_nr 1 (xs_env []) (xs_scope "XPtrs") = true /\
+  xterminating_nr 1 (xs_env []) (xs_scope "XEmbPtr") = true /\
+  xterminating_nr 0 (xs_env []) (xs_scope "XNested") = false /\
+  is_ok (xunser w_words w_pu (xfuel_bound_nr 1 (xs_env []) (xs_scope "XNested") xt_v_nested)
+           (xs_env []) (xs_scope "XNested") xt_v_nested) = true /\
+  is_err (xvalidate w_words w_pu (xfuel_bound_nr 1 (xs_env []) (xs_scope "XNested") (xs_inner_v 1 "q"))
+           (xs_env []) (xs_scope "XNested") (xs_inner_v 1 "q")) = true /\
+  is_ok (xserialize w_words w_pu
+           (xfuel_bound_nr 1 (xs_env []) (xs_scope "Choice") (VMap t_str_map false [(vstr "o", xs_inner_v 5 "z")]))
+           (xs_env []) (xs_scope "Choice") (VMap t_str_map false [(vstr "o", xs_inner_v 5 "z")])) = true.
+Proof. exact xt_descriptors_terminating. Qed.
+
+(* the class excludes the D52 witness of C04_struct_subdefault_cycle_refuted, and D11 / D50 over xschema *)
+Theorem C04_struct_nonrec_excludes_cycles : forall K,
+  xnonrec K (w_env []) w_rec = false /\ xterminating_nr K (w_env []) w_rec = false /\
+  xnonrec K (xs_env []) xt_d11 = false /\ xnonrec K (xs_env []) xt_d50 = false.
+Proof. exact xt_excludes_cycles. Qed.
+Print Assumptions C04_struct_nonrec_excludes_cycles.
+
+(* ---------- the full statement (recursive schemas included) ---------- *)
+From Verif Require Import Proofs.XTermRec.
+
+Theorem C04_struct_terminates :
+  forall (words : list (string * bool)) (pu : units -> string -> option fl)
+         (K : nat) (e : xenv) (s : xschema) (v : gval),
+  xterminating words pu K e s = true ->
+  forall f, (xfuel_bound K e s v <= f)%nat ->
+    xunser words pu f e s v <> OutOfFuel /\ xvalidate words pu f e s v <> OutOfFuel /\
+    xserialize words pu f e s v <> OutOfFuel /\ xcompat words pu f e s v <> OutOfFuel.
+Proof. exact x_struct_terminates. Qed.
+Print Assumptions C04_struct_terminates.
+
+Theorem C04_struct_total :
+  forall (words : list (string * bool)) (pu : units -> string -> option fl)
+         (K : nat) (e : xenv) (s : xschema) (v : gval),
+  xterminating words pu K e s = true ->
+  forall f, (xfuel_bound K e s v <= f)%nat ->
+    ((forall w, xunser words pu f e s v <> Panic w) /\ xunser words pu f e s v <> OutOfFuel) /\
+    ((forall w, xvalidate words pu f e s v <> Panic w) /\ xvalidate words pu f e s v <> OutOfFuel) /\
+    ((forall w, xserialize words pu f e s v <> Panic w) /\ xserialize words pu f e s v <> OutOfFuel) /\
+    ((forall w, xcompat words pu f e s v <> Panic w) /\ xcompat words pu f e s v <> OutOfFuel).
+Proof. exact x_struct_total. Qed.
+Print Assumptions C04_struct_total.
+
+(* in the class: a recursive struct-mapped list (type XNode struct { Next *XNode; V int64 }, T = *XNode), a
+   recursive map-based tree (neither is in the non-recursive class), the harness descriptors; K = 1 is too little
+   fuel for the defaults of XNested; with the explicit bound the operations finish *)
+Example C04_struct_terminates_example :
+  xterminating w_words w_pu 10 xt_env xt_list = true /\
+  xterminating w_words w_pu 10 (xs_env []) xt_tree = true /\
+  xnonrec 10 xt_env xt_list = false /\ xnonrec 10 (xs_env []) xt_tree = false /\
+  xterminating w_words w_pu 10 (xs_env []) (xs_scope "XNested") = true /\
+  xterminating w_words w_pu 10 (xs_env []) (xs_scope "Choice") = true /\
+  xterminating w_words w_pu 10 (xs_env []) (xs_scope "XPtrs") = true /\
+  xterminating w_words w_pu 10 (xs_env []) (xs_scope "XEmbPtr") = true /\
+  xterminating w_words w_pu 1 (xs_env []) (xs_scope "XNested") = false /\
+  is_ok (xunser w_words w_pu (xfuel_bound 10 xt_env xt_list xt_v_list) xt_env xt_list xt_v_list) = true /\
+  is_ok (xunser w_words w_pu (xfuel_bound 10 (xs_env []) xt_tree xt_v_tree) (xs_env []) xt_tree xt_v_tree) = true /\
+  is_ok (xunser w_words w_pu (xfuel_bound 10 (xs_env []) (xs_scope "XNested") xt_v_nested)
+           (xs_env []) (xs_scope "XNested") xt_v_nested) = true.
+Proof. exact xt_rec_terminating. Qed.
+
+(* the class excludes the D52 witness of C04_struct_subdefault_cycle_refuted for every K; the D11 shape over xschema for
+   every K (the walk part of the class does not look at K) and the D50 shape at K = 50 under the oracle of xs_env, which
+   does not decode "{}" - the genuine D50 witness (an oracle that decodes "{}") is excluded for every K below *)
+Theorem C04_struct_terminating_excludes_d52 : forall K, xterminating w_words w_pu K (w_env []) w_rec = false.
+Proof. exact xt_excludes_d52. Qed.
+Print Assumptions C04_struct_terminating_excludes_d52.
+
+Theorem C04_struct_terminating_excludes_d11_d50 :
+  (forall K, xterminating w_words w_pu K (xs_env []) xt_d11 = false) /\
+  xterminating w_words w_pu 50 (xs_env []) xt_d50 = false.
+Proof. exact xt_excludes_d11_d50. Qed.
+Print Assumptions C04_struct_terminating_excludes_d11_d50.
+
+(* every schema with an input on which Unserialize has no sufficient fuel is outside the class, for every K; in
+   particular the D11 and D50 witnesses of C04_inline_cycle_refuted / C04_default_cycle_refuted, embedded (both xwf) *)
+Theorem C04_struct_terminating_excludes_divergent : forall words pu (e : xenv) (s : xschema) (v : gval),
+  (forall fuel, xunser words pu fuel e s v = OutOfFuel) -> forall K, xterminating words pu K e s = false.
+Proof. exact xt_divergent_excluded. Qed.
+Print Assumptions C04_struct_terminating_excludes_divergent.
+
+Theorem C04_struct_terminating_excludes_d11_d50_embedded : forall words pu st K,
+  xterminating words pu K (embed_env st Proofs.C04Refuted.d11_env) (embed Proofs.C04Refuted.d11_scope) = false /\
+  xterminating words pu K (embed_env st Proofs.C04Refuted.d50_env) (embed Proofs.C04Refuted.d50_scope) = false /\
+  xwf (embed_env st Proofs.C04Refuted.d11_env) (embed Proofs.C04Refuted.d11_scope) = true /\
+  xwf (embed_env st Proofs.C04Refuted.d50_env) (embed Proofs.C04Refuted.d50_scope) = true.
+Proof. exact xt_excludes_embedded_d11_d50. Qed.
+Print Assumptions C04_struct_terminating_excludes_d11_d50_embedded.
